@@ -1,9 +1,11 @@
 """C02 — the transform Jacobian is the derivative of forward, and forward is increasing.
 
 Model: lean/HydroVerif/Model/C01.lean (`X.jac`, `X.jacobian` of the 13 classes) + Model/C02.lean (where `_jacobian`
-returns a number; Softmax matrix of partial derivatives); theorems: lean/HydroVerif/Props/C02.lean (over the reals:
-HasDerivAt forward jacobian on every smooth branch, 0 < jacobian, StrictMonoOn forward, Softmax determinant for
-every n).
+returns a number; Softmax matrix of partial derivatives) + Model/C02Hist.lean (the transform object: Vector slots and
+clipping, constructors and guards, public operations, get_transform, dutils.cast); theorems: lean/HydroVerif/Props/C02.lean
+(over the reals: HasDerivAt forward jacobian on every smooth branch, 0 < jacobian, StrictMonoOn forward, Softmax determinant
+for every n; over operation lists: the admissibility hypotheses follow from the code's guards after any history; over a
+rounded arithmetic: forward weakly increasing and jacobian >= 0 exactly).
 Correspondence: `Transform.jacobian` of the real classes (built directly and through `get_transform`) against the
 Float instance of the model, element by element, on the cases of C01 (generators imported from harness.c01). The
 tolerance of each element is the model's own first-order error bound (second, error-tracking instance of the same
@@ -25,16 +27,27 @@ Oracle (failing-input search, on the real code only, independent of the model):
   finite      forward(x) is a finite number at every domain point where the exact transform is finite (finite_region:
               e.g. LogSinh for every w > 0, Box-Cox while |lam ln(x+nu)| < 690, Manly while |lam x/xmax| < 690).
   monotone    ordered pairs x1 < x2 of domain points (neighbours and random pairs of the sorted inputs, across
-              the junctions of BoxCox2sym and Yeo-Johnson): forward(x1) <= forward(x2) + the evaluation error.
+              the junctions of BoxCox2sym and Yeo-Johnson): forward(x1) <= forward(x2) + the evaluation error. The images
+              are taken twice: from a call on the sorted domain points alone AND from the call on the series as given
+              (unsorted, NaN / out-of-domain / edge values between the domain points); x1 = x2: the two images of one
+              point may differ by the evaluation error only (signature X/monotone/same_point).
+  evaluation  the stencil points reach `forward` one of three ways, chosen at random per object: one new array | one new
+              array in which NaN / out-of-domain values stand between the points (first position included) | four calls
+              on ONE array object overwritten in place between the calls, the returned arrays read after the last call.
   Softmax     rows n <= 6 with s <= 0.99: numpy.linalg.det of the finite-difference matrix of partial derivatives
               against jacobian(row), 1e-4 relative, where the first-order error bound of that determinant
               (sum |(J^-1)_ji| |dJ_ij|, dJ = rounding noise + step-to-step difference) is below 2e-5; jacobian > 0.
+              The perturbed rows go to `forward` either as the rows of one new 2-D array or one by one through ONE (1, n)
+              working array perturbed in place and restored; then jacobian(working array) is held to the determinant too.
 Cases: per class, parameter vectors at declared bounds, defaults, exact branch values (lam = 0, +-1e-10, +-1.1e-10,
 1e-8, 2, 2+-2.001e-5 ...), non-default mininu / minilam / base, unset constants (error expected), then random ones
 (harness.c01.configs); inputs across the domain on a logarithmic grid from the edge, on the edge, outside (NaN
 expected), zero and NaN (harness.c01.x_inputs), plus tails (tail_inputs below): magnitudes 2^k, k = 20..1000 and
 2^-k, both signs, in the natural variable of each class (u = (x-nu) scale, w = nu + scale x, s = x + nu, x/xmax,
-LogSinh's w, Logit next to its guard), with the stencil step scaled to x; histories of parameter changes for the delegating classes (the
+LogSinh's w, Logit next to its guard), with the stencil step scaled to x; ill-scaled parameter vectors (ill_scaled_configs:
+a location parameter many orders of magnitude above the scale of variation - Logit |lower| = 2^20..2^45 or 1e6..1e13 with the
+narrowest admissible interval that still holds 64..2^20 doubles, nu of that size for Log / Box-Cox / Reciprocal / Yeo-Johnson /
+Sinh); accepted parameter vectors that the theorems exclude by hypothesis (excluded_point_configs: recorded, not judged); histories of parameter changes for the delegating classes (the
 inner BoxCox2 is stale at the start of every call); dense sweeps of lam through the branch switches; for
 Softmax, 2-D arrays of 1..4 rows x 1..7 columns incl. rejected ones.
 History streams (every answer compared with the model at the object's CURRENT state, some judged by the oracle): on one
@@ -44,6 +57,13 @@ values and re-assign the original | forward then jacobian | same call again) -> 
 same on one array object; `forward` is compared as well (the theorems differentiate the model's forward). Glue stream
 (`dutils.cast`): 2-D float64 input keeps its shape and values; python float input must hold the value of the 1-element
 array call; int64 / float32 arrays are outside the quantifier: what happens is recorded in the evidence only; Softmax arrays of 3 / 4 dimensions are rejected (ndimGt2).
+Store stream (Model/C02Hist): one real object per case, built by its constructor or by get_transform with requested options
+(valid and rejected: minilam < -3, > 1 + EPS, > 3; base <= 0, = 1), then 3-8 operations with REQUESTED values (inside / on /
+outside the bounds, NaN, +-inf, wrong lengths, unknown keys): t.name = v, t[name] = v, t.params.values = vs, t.reset(),
+jacobian / forward. After every operation the stored parameters, constants and inner BoxCox2 parameters are compared bit for bit
+with the model's state machine, the error kind of a rejected operation with the model's, a rejected operation must leave the
+object unchanged, and the values of a call with the model's answer from ITS state (NaN pattern, sign, order of magnitude) and once more through the main correspondence. dutils.cast itself is called
+on float64 / float32 / int64 arrays of several shapes and on python floats with 0-d / numpy-scalar / 1-d results.
 A case (one element of one call) is non-trivial when the reply is a finite number.
 """
 import json
@@ -59,6 +79,8 @@ NAN = float("nan")
 INF = float("inf")
 E = 2.3e-16          # unit roundoff
 K = 8.0              # safety factor on the evaluation-error bounds
+SUBNORMAL_FLOOR = 1e-12 * 2.2250738585072014e-308   # 1e-12 relative at the smallest normal double: below it doubles have
+#                                                     no relative precision left (results around 1e-316 carry ~8 digits)
 LADDER = (16, 13, 10, 8, 6, 4)      # h = 2^floor(log2 L) / 2^j, smallest step first
 MS = (-2.0, -1.0, 1.0, 2.0)
 fin = G.fin
@@ -175,9 +197,11 @@ def finite_region(cls, P, x):
     if cls in ("Identity", "Sinh"):
         return True
     if cls == "Logit":
+        # inside the guard of `_jacobian` (the property's domain for this class): closer than EPS to an end of the
+        # interval the formula log(1/(1 - v) - 1) cancels (v < 2^-53 gives log 0) and jacobian is NaN by design
         lo = P["lower"]
         d = math.exp(P["logdelta"])
-        return x - lo > 1e-290 * d and lo + d - x > 1e-290 * d
+        return x - lo > EPS and lo + d - x > EPS and x - lo > 8 * E * d and lo + d - x > 8 * E * d
     if cls in ("Log", "Reciprocal"):
         return 1e-290 < (x + P["nu"]) < 1e290 and (cls != "Log" or P["bf"] != 0)
     if cls in BOXCOX:
@@ -306,8 +330,15 @@ def fwd_abs_err(np, cls, P, x, f):
                 return K * E * ((1 + abs(lam)) * Pw + np.abs(Pw - 1)) / abs(lam)
             return K * E * (1 + np.abs(np.log(s)))
         if cls == "Logit":
-            v = (x - P["lower"]) / math.exp(P["logdelta"])
-            return K * E * (1 / v + 1 / (1 - v)) + gen
+            # the width of the interval as a real number (exp(logdelta)) and as the double `upper - lower` that the
+            # parameter vector defines: for |lower| >> width they differ; the larger of the two estimates is used
+            lo, d = P["lower"], math.exp(P["logdelta"])
+            est = 0.0
+            for wd in (d, (lo + d) - lo):
+                if wd > 0:
+                    v = (x - lo) / wd
+                    est = np.maximum(est, K * E * (1 / np.abs(v) + 1 / np.abs(1 - v)))
+            return est + gen
         if cls == "Log":
             s = x + P["nu"]
             return K * E * (1 + np.abs(np.log(s))) / abs(P["bf"]) + gen
@@ -411,6 +442,85 @@ def tail_inputs(cls, P, rng, n):
     return [v for v in out if fin(v)]
 
 
+# ------------------------------------------------------------------------------------------------------
+# ill-scaled parameter vectors: a location parameter many orders of magnitude above the scale on which the transform
+# varies (|lower| >> exp(logdelta), |nu| >> x + nu, |nu| >> 1/scale). All are inside the declared bounds (the location
+# parameters are unbounded); what they exercise is every place where the code forms location + small - location: the
+# quantities forward and jacobian derive from the parameters must be the SAME doubles in both methods.
+ILL_K = (20, 24, 27, 30, 31, 33, 36, 40, 45)
+
+
+def ill_scaled_configs(cls, rng, n):
+    out = []
+
+    def big():
+        r = rng.random()
+        if r < 0.5:
+            return rng.choice([-1.0, 1.0]) * math.ldexp(1.0, rng.choice(ILL_K))
+        if r < 0.75:
+            return rng.choice([-1.0, 1.0]) * math.ldexp(1 + rng.random(), rng.choice(ILL_K))
+        return rng.choice([-1.0, 1.0]) * 10 ** rng.uniform(6, 13)
+    for i in range(n):
+        if cls == "Logit":
+            lo = big()
+            ulp = math.ulp(abs(lo))
+            # narrowest admissible interval that still holds N doubles (N >= 64: a stencil with steps of whole ulps
+            # fits), then wider ones up to the upper bound of logdelta
+            nd = rng.choice([64, 100, 200, 400, 1000, 4096, 2 ** 20])
+            ldmin = max(-10.0, math.log(nd * ulp))
+            if ldmin > 10.0:
+                continue
+            ld = ldmin if i % 3 != 2 else rng.uniform(ldmin, 10.0)
+            out.append(({}, {"lower": lo, "logdelta": ld}))
+        elif cls in ("Log", "Reciprocal"):
+            nu = abs(big())
+            ctor = {} if i % 2 else {"mininu": rng.choice([EPS, 0.0, -10.0, 1e-3])}
+            if cls == "Log" and i % 3 == 0:
+                ctor["base"] = rng.choice([10.0, 2.0, 1.0001])
+            out.append((ctor, {"nu": nu}))
+        elif cls in BOXCOX + ("BoxCox2sym",):
+            ctor = rng.choice([{}, {"minilam": -3.0}, {"mininu": 0.0, "minilam": -3.0}])
+            lam = rng.choice(G.lam_pool(rng, ctor.get("minilam", 0.0)))
+            nu = abs(big())
+            if abs(lam) > EPS and abs(lam * math.log(nu)) > 600:
+                lam = 0.5
+            out.append((dict(ctor), {"nu": nu, "lam": lam}))
+        elif cls == "YeoJohnson":
+            out.append(({}, {"nu": big(), "scale": 10 ** rng.uniform(-5, 3),
+                             "lam": rng.choice([0.0, 2.0, 1.0, 0.5, 1.5, -1.0, 3.0, rng.uniform(-1, 3)])}))
+        elif cls == "Sinh":
+            out.append(({}, {"nu": big(), "scale": 10 ** rng.uniform(-6, 3)}))
+    return out
+
+
+def excluded_point_configs(cls):
+    """parameter vectors the constructors accept but the theorems exclude by hypothesis (each with a counterexample
+    theorem): the real code is run there, whatever it answers is compared with the model and nothing is judged"""
+    if cls == "Log":
+        return [({"base": 1.0}, {"nu": 0.5}),                      # log(base) = 0: Log.base_one_not_pos
+                ({"mininu": -10.0}, {"nu": -5.0})]                 # guard wider than the domain: Log.guard_wider_than_domain
+    if cls == "BoxCox2sym":
+        return [({"mininu": 0.0}, {"nu": 0.0, "lam": 0.0}),        # BC(0) = log 0 does not exist
+                ({"mininu": 0.0, "minilam": -3.0}, {"nu": 0.0, "lam": -0.5})]
+    return []
+
+
+def outside_values(cls, P):
+    """values that are NOT points of the domain of `forward` (a missing value, and a point outside the domain where there
+    is one): what a series holds next to its valid points"""
+    out = [NAN]
+    if cls == "Logit":
+        out += [P["lower"] - 1.0 - abs(P["lower"]), P["lower"] + math.exp(P["logdelta"]) + 1.0 + abs(P["lower"])]
+    elif cls in ("Log", "Reciprocal") + BOXCOX:
+        if P["nu"] == P["nu"]:
+            out += [-P["nu"] - 1.0 - abs(P["nu"]), -P["nu"]]
+    elif cls == "LogSinh":
+        if P["xmax"] == P["xmax"]:
+            a, b = math.exp(P["loga"]), math.exp(P["logb"])
+            out += [(-a / b - 1.0) * P["xmax"]]
+    return out
+
+
 def pow2_floor(v):
     m, e = math.frexp(v)          # v = m 2^e, 0.5 <= m < 1
     return e - 1
@@ -433,8 +543,56 @@ def body(ctx):
         o.after_call(st)
         return st, payload
 
+    # ------------------------------------------------------------------ forward at the stencil points
+    def stencil_forward(o, P, pts):
+        """images of the stencil points `pts` (one row per centre and step, columns x-2h, x-h, x+h, x+2h) under the real
+        `forward`, obtained the ways a caller obtains them:
+          flat     one call on a new array holding all points;
+          padded   one call on a new array in which missing values / out-of-domain values stand between the points
+                   (first position included), as in a series with gaps;
+          inplace  four calls on ONE array object whose content is overwritten between the calls (the usual
+                   finite-difference idiom `work[...] = x + m h; f(work)`), the four returned arrays being kept and read
+                   only after the last call.
+        -> (array of the shape of pts | None, mode)"""
+        cls = o.cls
+        mode = rng.choice(["flat", "padded", "inplace"])
+        ctx.count(("stencil-mode", cls, mode, ctx.evaluations), False, f"oracle/stencil-evaluation/{mode}")
+        if mode == "flat":
+            st, fv = call(o, "fwd", pts.ravel())
+            return (np.asarray(fv, dtype=np.float64).reshape(pts.shape) if st == "ok" else None), mode
+        if mode == "padded":
+            flat = pts.ravel()
+            bad = outside_values(cls, P)
+            npad = max(1, min(len(flat) // 3, 40))
+            pos = sorted([0] + [rng.randrange(len(flat) + 1) for _ in range(npad - 1)])
+            vals = [rng.choice(bad) for _ in pos]
+            big = np.insert(flat, pos, vals)
+            where = np.array(pos) + np.arange(len(pos))
+            st, fv = o.call("fwd", None, raw=big)
+            o.after_call(st)
+            if st != "ok":
+                return None, mode
+            fv = np.delete(np.asarray(fv, dtype=np.float64), where)
+            return (fv.reshape(pts.shape) if fv.size == pts.size else None), mode
+        work = np.array(pts[:, 0], dtype=np.float64)
+        held = []
+        for c in range(pts.shape[1]):
+            work[...] = pts[:, c]
+            try:
+                with np.errstate(all="ignore"):
+                    r = o.t.forward(work)
+                o.after_call("ok")
+            except Exception:  # noqa
+                return None, mode
+            held.append(r)
+        try:
+            fv = np.column_stack([np.asarray(r, dtype=np.float64).ravel() for r in held])
+        except Exception:  # noqa
+            return None, mode
+        return (fv if fv.shape == pts.shape else None), mode
+
     # ------------------------------------------------------------------ oracle on one object
-    def oracle(o, xs, jvals, note):
+    def oracle(o, xs, jvals, note, fmixed=None):
         cls = o.cls
         P = o.P()
         case0 = {"class": cls, "ctor": o.ctor, "params": P, "note": note}
@@ -449,57 +607,90 @@ def body(ctx):
                 ctx.finding(f"{cls}/positive/{tag}",
                             f"{cls}.jacobian is negative or NaN at a point where its own guard holds",
                             {**case0, "x": x, "jacobian": j})
-        # ---- ordered pairs
+        # ---- ordered pairs. The images come from two calls: one on the sorted domain points alone, and the call the
+        # caller already made on the whole series `xs` as it stands (unsorted, with its NaN / out-of-domain / edge values
+        # between the domain points): a domain point is a domain point whatever else the array holds
         cand = sorted({x for x in xs if fwd_domain(cls, P, x)})
+        jmap = {x: j for x, j in zip(xs, jvals)}
+        sources = []
         if len(cand) >= 2:
             st, fv = call(o, "fwd", cand)
             if st == "ok":
-                fv = np.asarray(fv, dtype=np.float64).ravel()
-                err = fwd_abs_err(np, cls, P, np.array(cand), fv)
-                jmap = {x: j for x, j in zip(xs, jvals)}
-                for x, f in zip(cand, fv):
-                    if finite_region(cls, P, x):
-                        stats["finite_checked"] += 1
-                        if not fin(float(f)):
-                            ctx.finding(f"{cls}/finite/forward",
-                                        f"{cls}.forward is not a finite number at a domain point where the exact transform is "
-                                        f"finite (overflow inside the evaluation)",
-                                        {**case0, "x": x, "forward": float(f)})
-                n = len(cand)
-                pairs = [(i, i + 1) for i in range(n - 1)] + [(i, i + 2) for i in range(n - 2)]
-                for _ in range(min(n, 12)):
-                    i, k = sorted(rng.sample(range(n), 2))
-                    pairs.append((i, k))
-                for i, k in pairs:
-                    f1, f2 = float(fv[i]), float(fv[k])
-                    if not (fin(f1) and fin(f2)) or not (fin(float(err[i])) and fin(float(err[k]))):
-                        continue
-                    stats["pairs_checked"] += 1
-                    junction = (cls == "BoxCox2sym" and cand[i] < 0 < cand[k]) or \
-                               (cls == "YeoJohnson" and (P["nu"] + cand[i] * P["scale"] < EPS <= P["nu"] + cand[k] * P["scale"]))
-                    if junction:
-                        stats["pairs_across_junction"] += 1
-                    slack = float(err[i]) + float(err[k])
-                    j1, j2 = jmap.get(cand[i], NAN), jmap.get(cand[k], NAN)
-                    if cls != "Logit" and not junction and f2 - f1 <= slack and fin(j1) and fin(j2) and j1 > 0 and j2 > 0 and \
-                            min(j1, j2) * (cand[k] - cand[i]) > 8 * slack and not (cls == "Log" and P["bf"] < 0) and \
-                            jac_domain(cls, P, cand[i]) is not None and jac_domain(cls, P, cand[k]) is not None and \
-                            (cls != "BoxCox2sym" or cand[i] * cand[k] > 0):
-                        # the Jacobian is monotone between two points of one branch (every class but Logit), so the exact
-                        # images differ by at least min(j1, j2) (x2 - x1): far more than the evaluation error here
-                        ctx.finding(f"{cls}/monotone/equal_images",
-                                    f"{cls}.forward gives (nearly) equal images at two distinct domain points whose exact "
-                                    f"images differ by much more than the evaluation error",
-                                    {**case0, "x1": cand[i], "x2": cand[k], "forward1": f1, "forward2": f2, "slack": slack,
-                                     "lower_bound_of_exact_difference": min(j1, j2) * (cand[k] - cand[i])})
-                    if f1 > f2 + slack:
-                        tag = "base_below_one" if (cls == "Log" and P["bf"] < 0) else ("junction" if junction else "branch")
-                        ctx.finding(f"{cls}/monotone/{tag}",
-                                    f"{cls}.forward decreases between two ordered domain points by more than the "
-                                    f"evaluation error of the formula",
-                                    {**case0, "x1": cand[i], "x2": cand[k], "forward1": f1, "forward2": f2, "slack": slack})
-                ctx.count(("pairs", cls, json.dumps(P, sort_keys=True, default=str), len(cand)), True,
-                          f"oracle/monotone/{cls}")
+                sources.append(("sorted domain points", np.asarray(fv, dtype=np.float64).ravel()))
+        if fmixed is not None and len(fmixed) == len(xs) and len(cand) >= 1:
+            first = {}
+            for x, f in zip(xs, fmixed):
+                if x == x and x not in first:
+                    first[x] = f
+            sources.append(("the series as given", np.array([first[x] for x in cand], dtype=np.float64)))
+        errs = [fwd_abs_err(np, cls, P, np.array(cand), fv) for _, fv in sources]
+        if len(sources) == 2:
+            # x1 = x2: the two images of one domain point may differ by rounding only
+            for i, x in enumerate(cand):
+                fa, fb = float(sources[0][1][i]), float(sources[1][1][i])
+                ea, eb = float(errs[0][i]), float(errs[1][i])
+                if not finite_region(cls, P, x) or jac_domain(cls, P, x) is None:
+                    continue
+                if not fin(fa) and not fin(fb):
+                    continue          # (a non-finite image at such a point is reported by the `finite` check below)
+                if not (fin(ea) and fin(eb)):
+                    continue
+                stats["pairs_checked"] += 1
+                if (fa != fa) != (fb != fb) or not abs(fa - fb) <= ea + eb:
+                    ctx.finding(f"{cls}/monotone/same_point",
+                                f"{cls}.forward gives two different images of one domain point, depending on which other "
+                                f"values the array holds (x1 = x2 must give equal images within rounding)",
+                                {**case0, "x": x, "forward_alone_sorted": fa, "forward_in_series": fb, "slack": ea + eb,
+                                 "series": [float(v) for v in xs]})
+                    break
+        for (src, fv), err in zip(sources, errs):
+            if len(cand) < 2:
+                break
+            for x, f in zip(cand, fv):
+                if finite_region(cls, P, x):
+                    stats["finite_checked"] += 1
+                    if not fin(float(f)):
+                        ctx.finding(f"{cls}/finite/forward",
+                                    f"{cls}.forward is not a finite number at a domain point where the exact transform is "
+                                    f"finite (overflow inside the evaluation)",
+                                    {**case0, "x": x, "forward": float(f), "evaluated_on": src})
+            n = len(cand)
+            pairs = [(i, i + 1) for i in range(n - 1)] + [(i, i + 2) for i in range(n - 2)]
+            for _ in range(min(n, 12)):
+                i, k = sorted(rng.sample(range(n), 2))
+                pairs.append((i, k))
+            for i, k in pairs:
+                f1, f2 = float(fv[i]), float(fv[k])
+                if not (fin(f1) and fin(f2)) or not (fin(float(err[i])) and fin(float(err[k]))):
+                    continue
+                stats["pairs_checked"] += 1
+                junction = (cls == "BoxCox2sym" and cand[i] < 0 < cand[k]) or \
+                           (cls == "YeoJohnson" and (P["nu"] + cand[i] * P["scale"] < EPS <= P["nu"] + cand[k] * P["scale"]))
+                if junction:
+                    stats["pairs_across_junction"] += 1
+                slack = float(err[i]) + float(err[k])
+                j1, j2 = jmap.get(cand[i], NAN), jmap.get(cand[k], NAN)
+                if cls != "Logit" and not junction and f2 - f1 <= slack and fin(j1) and fin(j2) and j1 > 0 and j2 > 0 and \
+                        min(j1, j2) * (cand[k] - cand[i]) > 8 * slack and not (cls == "Log" and P["bf"] < 0) and \
+                        jac_domain(cls, P, cand[i]) is not None and jac_domain(cls, P, cand[k]) is not None and \
+                        (cls != "BoxCox2sym" or cand[i] * cand[k] > 0):
+                    # the Jacobian is monotone between two points of one branch (every class but Logit), so the exact
+                    # images differ by at least min(j1, j2) (x2 - x1): far more than the evaluation error here
+                    ctx.finding(f"{cls}/monotone/equal_images",
+                                f"{cls}.forward gives (nearly) equal images at two distinct domain points whose exact "
+                                f"images differ by much more than the evaluation error",
+                                {**case0, "x1": cand[i], "x2": cand[k], "forward1": f1, "forward2": f2, "slack": slack,
+                                 "lower_bound_of_exact_difference": min(j1, j2) * (cand[k] - cand[i]),
+                                 "evaluated_on": src})
+                if f1 > f2 + slack:
+                    tag = "base_below_one" if (cls == "Log" and P["bf"] < 0) else ("junction" if junction else "branch")
+                    ctx.finding(f"{cls}/monotone/{tag}",
+                                f"{cls}.forward decreases between two ordered domain points by more than the "
+                                f"evaluation error of the formula",
+                                {**case0, "x1": cand[i], "x2": cand[k], "forward1": f1, "forward2": f2, "slack": slack,
+                                 "evaluated_on": src, **({"series": [float(v) for v in xs]} if src != "sorted domain points" else {})})
+            ctx.count(("pairs", cls, json.dumps(P, sort_keys=True, default=str), len(cand), src), True,
+                      f"oracle/monotone/{cls}")
         # ---- 5-point stencil
         pts_rows, meta = [], []
         for x, j in zip(xs, jvals):
@@ -526,10 +717,10 @@ def body(ctx):
         hcol = np.array([m[3] for m in meta])[:, None]
         exact = np.all((pts - xcol) == np.array(MS)[None, :] * hcol, axis=1)
         inb = same_branch(np, cls, P, xcol, pts)
-        st, fv = call(o, "fwd", pts.ravel())
-        if st != "ok":
+        fv, how = stencil_forward(o, P, pts)
+        if fv is None:
             return
-        fv = np.asarray(fv, dtype=np.float64).reshape(pts.shape)
+        case0 = {**case0, "stencil_evaluated": how}
         err = fwd_abs_err(np, cls, P, pts.ravel(), fv.ravel()).reshape(pts.shape)
         with np.errstate(all="ignore"):
             D = (fv[:, 0] - 8 * fv[:, 1] + 8 * fv[:, 2] - fv[:, 3]) / (12 * hcol[:, 0])
@@ -586,11 +777,18 @@ def body(ctx):
                       sample=({"oracle": "stencil", "class": cls, "params": P, "x": x, "h": h, "jacobian": j,
                                "finite_difference": Db} if stats["stencil_judged"] % 97 == 1 else None))
             if not rel <= 1e-4:
+                extra = {}
+                if how == "padded":
+                    # a short series that shows the same thing: one non-domain value, then the four stencil points
+                    ser = [outside_values(cls, P)[-1]] + [x + m * h for m in MS]
+                    st_, fs_ = o.call("fwd", ser)
+                    o.after_call(st_)
+                    extra = {"short_series": ser, "forward_of_short_series": ([float(v) for v in fs_] if st_ == "ok" else str(fs_))}
                 ctx.finding(f"{cls}/derivative/{tag}",
                             f"{cls}.jacobian(x) differs from the 5-point central difference of {cls}.forward by more "
                             f"than 1e-4 relative inside one smooth branch",
                             {**case0, "x": x, "h": h, "jacobian": j, "finite_difference": Db, "relative_difference": rel,
-                             "forward_at_stencil": [float(v) for v in fv[chosen]]})
+                             "forward_at_stencil": [float(v) for v in fv[chosen]], **extra})
             f4 = [float(v) for v in fv[chosen]]
             if not (f4[0] < f4[1] < f4[2] < f4[3]):
                 ctx.finding(f"{cls}/monotone/" + ("base_below_one" if (cls == "Log" and P["bf"] < 0) else "stencil"),
@@ -621,7 +819,7 @@ def body(ctx):
             r = None
             status, payload = "err", "exc:" + type(e).__name__ + ":" + str(e)[:60]
         o.after_call(status)
-        case = {"class": cls, "ctor": o.ctor, "params": o.P(), "op": op, "inputs": xs, "note": note}
+        case = {"class": cls, "ctor": o.ctor, "params": o.P(), "op": op, "inputs": xs, "note": note, "inside": inside}
         if inside and status == "err" and all(v is not None for v in o.requested.values()):
             ctx.finding(f"{cls}/{op}/raises_on_valid_setting",
                         f"{op} on a transform whose parameters and constants were all set raises " + str(payload),
@@ -631,21 +829,27 @@ def body(ctx):
         checks.append((status, payload, case, list(o.bc) if cls in STATEFUL else None))
         return status, r
 
-    def exercise(o, nin, note="", xs=None):
+    def exercise(o, nin, note="", xs=None, inside=True):
         cls = o.cls
         P = o.P()
         if xs is None:
             xs = G.x_inputs(cls, P, rng, nin) + tail_inputs(cls, P, rng, max(12, nin // 3))
         first = rng.random() < 0.5          # which public method touches the object first after a (re)setting
         if first:
-            compared(o, "fwd", xs, note)
-        status, r = compared(o, "jac", xs, note)
+            stf, rf = compared(o, "fwd", xs, note, inside=inside)
+        status, r = compared(o, "jac", xs, note, inside=inside)
         if not first:
-            compared(o, "fwd", xs, note)
+            stf, rf = compared(o, "fwd", xs, note, inside=inside)
         if status == "ok":
             jv = [float(v) for v in np.asarray(r, dtype=np.float64).ravel()]
+            fm = None
+            if stf == "ok":
+                try:
+                    fm = [float(v) for v in np.asarray(rf, dtype=np.float64).ravel()]
+                except Exception:  # noqa
+                    fm = None
             if len(jv) == len(xs):
-                oracle(o, xs, jv, note)
+                oracle(o, xs, jv, note, fmixed=fm)
 
     def reassign(o):
         """equal-size re-assignment of parameters / constants of a live object, through one of the three public ways"""
@@ -806,7 +1010,18 @@ def body(ctx):
     scalar_classes = ["Identity", "Logit", "Log", "BoxCox2", "BoxCox1lam", "BoxCox1nu", "BoxCox2sym", "YeoJohnson",
                       "LogSinh", "Reciprocal", "Sinh", "Manly"]
     for cls in scalar_classes:
-        cfgs = G.configs(cls, rng, 1 if cls == "Identity" else ncfg)
+        cfgs = G.configs(cls, rng, 1 if cls == "Identity" else ncfg) + ill_scaled_configs(cls, rng, ctx.scale(16, 60))
+        for ctor, params in excluded_point_configs(cls):
+            # accepted by the constructor, excluded by a theorem hypothesis: run, compare, judge nothing (an equivalent
+            # formula may legitimately raise there, e.g. 1/log(base) for base = 1)
+            try:
+                o = G.Obj(T, cls, ctor, params, via_get=False)
+            except Exception as e:  # noqa  (a constructor that refuses such a vector is as good)
+                ctx.count(("excluded", cls, json.dumps(params, sort_keys=True)), False,
+                          f"{cls}/excluded-by-hypothesis/constructor-raises-{type(e).__name__}")
+                continue
+            ctx.count(("excluded", cls, json.dumps(params, sort_keys=True)), False, f"{cls}/excluded-by-hypothesis")
+            exercise(o, 14, note="excluded by a theorem hypothesis", inside=False)
         for i, (ctor, params) in enumerate(cfgs):
             o = G.Obj(T, cls, ctor, params, via_get=(i % 2 == 1))
             exercise(o, nin)
@@ -944,6 +1159,12 @@ def body(ctx):
         ladder = (12, 9, 6)
         mats, noises, fits = [], [], []
         base = np.array(row, dtype=np.float64)
+        # how the perturbed rows reach `forward`: all at once as the rows of one new 2-D array, or one after the other
+        # through ONE (1, n) working array that is perturbed in place, evaluated and restored (the returned arrays
+        # are kept and read after the last call); in that mode `jacobian` is evaluated on the restored working array too
+        sm_mode = rng.choice(["fresh", "inplace"])
+        work = base.copy().reshape(1, n)
+        ctx.count(("smdet-mode", it, sm_mode), False, f"oracle/Softmax/determinant/evaluation/{sm_mode}")
         for jj in ladder:
             pert, hs = [], []
             fit = True
@@ -960,10 +1181,19 @@ def body(ctx):
             pert = np.array(pert)
             try:
                 with np.errstate(all="ignore"):
-                    yv = np.asarray(sm.forward(pert), dtype=np.float64)
+                    if sm_mode == "fresh":
+                        yv = np.asarray(sm.forward(pert), dtype=np.float64)
+                    else:
+                        held = []
+                        for pr in pert:
+                            work[0, :] = pr
+                            held.append(sm.forward(work))
+                        work[0, :] = base
+                        yv = np.vstack([np.asarray(r_, dtype=np.float64).reshape(1, n) for r_ in held])
             except ValueError:
                 fit = False
                 yv = None
+                work[0, :] = base
             if not fit or yv is None or not np.all(np.isfinite(yv)):
                 mats.append(None), noises.append(None), fits.append(False)
                 continue
@@ -998,18 +1228,219 @@ def body(ctx):
         Jfd = mats[chosen]
         det = float(np.linalg.det(Jfd))
         stats["softmax_det_judged"] += 1
+        jwork = None
+        if sm_mode == "inplace":
+            try:
+                with np.errstate(all="ignore"):
+                    jwork = float(np.asarray(sm.jacobian(work), dtype=np.float64).ravel()[0])
+            except ValueError:
+                jwork = NAN
         rel = abs(det - jrow) / max(abs(det), abs(jrow))
         ctx.count(("smdet", tuple(row)), True, f"oracle/Softmax/determinant/n={n}",
                   sample=({"oracle": "softmax-det", "row": row, "jacobian": jrow, "det_fd": det}
                           if stats["softmax_det_judged"] % 41 == 1 else None))
+        if jwork is not None:
+            # the Jacobian of the working array (restored to the row after the in-place perturbations) is held to the same
+            # requirement as that of a new array
+            relw = abs(det - jwork) / max(abs(det), abs(jwork)) if jwork == jwork else INF
+            if not (jwork > 0 and relw <= 1e-4):
+                ctx.finding("Softmax/determinant/working_array",
+                            "Softmax.jacobian of a working array holding the row (after in-place perturbations and calls of "
+                            "forward on that same array) is not positive or differs from numpy.linalg.det of the "
+                            "finite-difference matrix of partial derivatives by more than 1e-4 relative",
+                            {"row": row, "jacobian_of_working_array": jwork, "jacobian_of_new_array": jrow,
+                             "det_of_finite_difference_matrix": det, "relative_difference": relw, "evaluation": sm_mode})
         if not rel <= 1e-4:
             ctx.finding("Softmax/determinant/row",
                         "Softmax.jacobian(row) differs from numpy.linalg.det of the finite-difference matrix of partial "
                         "derivatives of Softmax.forward by more than 1e-4 relative",
                         {"row": row, "jacobian": jrow, "det_of_finite_difference_matrix": det, "relative_difference": rel,
-                         "finite_difference_matrix": Jfd.tolist()})
+                         "finite_difference_matrix": Jfd.tolist(), "evaluation": sm_mode})
         pd_reqs.append(f"pd Softmax [] {C.fmat([row])}")
         pd_checks.append((row, Jfd, jrow, reliable))
+
+    # ---------------- store stream: ONE object, a history of public operations with REQUESTED values (in / on / outside
+    # the bounds, NaN, +-inf, wrong lengths, unknown keys, unset constants), against Model/C02Hist's state machine: after
+    # every operation the stored parameters / constants / inner BoxCox2 parameters (bit for bit), the error kind of a
+    # rejected operation and "a rejected operation changes nothing"; calls are answered from the MODEL's state
+    SLOTS = {   # (parameter names, constant names) in the order of the vectors
+        "Identity": ([], []), "Logit": (["lower", "logdelta"], []), "Log": (["nu"], []), "BoxCox2": (["nu", "lam"], []),
+        "BoxCox1lam": (["lam"], ["nu"]), "BoxCox1nu": (["nu"], ["lam"]), "BoxCox2sym": (["nu", "lam"], []),
+        "YeoJohnson": (["nu", "scale", "lam"], []), "LogSinh": (["loga", "logb"], ["xmax"]), "Reciprocal": (["nu"], []),
+        "Sinh": (["nu", "scale"], []), "Manly": (["lam"], ["xmax"])}
+    STORE_ERR = [("Cannot set value to nan", "nanValue"), ("Cannot process values with NaN", "nanValue"),
+                 ("Expected vector of length", "badLength"), ("Expected key in", "unknownKey"),
+                 ("Expected minilam", "minilamBelowM3"), ("Expected maxs within", "maxsOutside"),
+                 ("Expected defaults within", "defaultsOutside"), ("math domain error", "baseNotPositive"),
+                 ("expected a positive input", "baseNotPositive")] + list(G.ERRMAP)
+
+    def classify(e):
+        msg = str(e)
+        return next((v for k, v in STORE_ERR if k in msg), "other:" + msg[:50])
+
+    def value_pool(cls, name, ctor):
+        mininu, minilam = ctor.get("mininu", EPS), ctor.get("minilam", 0.0)
+        bounds = {"logdelta": (-10.0, 10.0), "nu": (mininu, None), "lam": (minilam, 3.0), "scale": (1e-5, None),
+                  "loga": (-20.0, 0.0), "logb": (-5.0, 5.0), "xmax": (EPS, None), "lower": (None, None)}
+        if cls in ("YeoJohnson", "Sinh") and name == "nu":
+            bounds["nu"] = (None, None)
+        if cls == "YeoJohnson" and name == "lam":
+            bounds["lam"] = (-1.0, 3.0)
+        if cls == "Sinh" and name == "scale":
+            bounds["scale"] = (1e-10, None)
+        if cls == "Manly" and name == "lam":
+            bounds["lam"] = (-5.0, 5.0)
+        lo, hi = bounds.get(name, (None, None))
+        pool = [rng.uniform(-3, 3), 10 ** rng.uniform(-6, 3), 0.0, 1.0, NAN, NAN, INF, -INF, -1e300, 1e300]
+        if lo is not None:
+            pool += [lo, lo - 1.0, lo - abs(lo) * 1e-12 - 1e-300, lo + abs(lo) * 1e-12 + 1e-12, math.nextafter(lo, -INF)]
+        if hi is not None:
+            pool += [hi, hi + 1.0, math.nextafter(hi, INF), hi - 1e-9]
+        if lo is not None and hi is not None:
+            pool += [rng.uniform(lo, hi) for _ in range(4)]
+        elif lo is not None:
+            pool += [lo + 10 ** rng.uniform(-9, 3) for _ in range(4)]
+        return pool
+
+    def snapshot(t):
+        bc = [float(v) for v in t.BC.params.values] if hasattr(t, "BC") else None
+        return ([float(v) for v in t.params.values], [float(v) for v in t.constants.values], bc)
+
+    def tokv(v):
+        return C.f2h(v)
+
+    hist_reqs, hist_checks = [], []
+    store_classes = list(SLOTS)
+    nstore = ctx.scale(30, 150)
+    for cls in store_classes:
+        pnames, cnames = SLOTS[cls]
+        for it in range(nstore):
+            ctor = {}
+            if cls in BOXCOX + ("BoxCox2sym",):
+                ctor = rng.choice([{}, {}, {"minilam": -3.0}, {"minilam": -3.5}, {"minilam": -3.0 - 1e-12}, {"minilam": 0.5},
+                                   {"minilam": 1.0}, {"minilam": 1.0 + 5e-11}, {"minilam": 1.0 + 2e-10}, {"minilam": 1.5},
+                                   {"minilam": 3.5}, {"mininu": 0.5}, {"mininu": 0.0, "minilam": -3.0}, {"mininu": -10.0}])
+            elif cls == "Log":
+                ctor = rng.choice([{}, {"base": 10.0}, {"base": 0.5}, {"base": -1.0}, {"base": 0.0}, {"mininu": 0.5},
+                                   {"mininu": 0.0, "base": 2.0}, {"mininu": -10.0}])
+            elif cls == "Reciprocal":
+                ctor = rng.choice([{}, {"mininu": 0.1}, {"mininu": 0.0}, {"mininu": -10.0}])
+            ctor = dict(ctor)
+            base = ctor.get("base")
+            ctok = C.flist([ctor.get("mininu", EPS), ctor.get("minilam", 0.0), NAN if base is None else base])
+            via = rng.random() < 0.4
+            kw = []
+            if via:
+                for nm in rng.sample(pnames + cnames + ["zz_free"], rng.randint(0, len(pnames + cnames) + 1)):
+                    kw.append((nm, rng.choice(value_pool(cls, nm, ctor))))
+            how = "via:" + ",".join(f"{k}={tokv(v)}" for k, v in kw) if via else "direct"
+            # ---- the real object
+            steps = []
+            t = None
+            try:
+                with np.errstate(all="ignore"):
+                    t = T.get_transform(cls, **ctor, **dict(kw)) if via else getattr(T, cls)(**ctor)
+                steps.append(("done", snapshot(t), None))
+            except ValueError as e:
+                steps.append(("rej:" + classify(e), None, None))
+            ops = []
+            if t is not None:
+                for _ in range(rng.randint(3, 8)):
+                    kind = rng.choice(["A", "A", "I", "I", "V", "R", "J", "J", "F"])
+                    before = snapshot(t)
+                    try:
+                        vals = None
+                        with np.errstate(all="ignore"):
+                            if kind in ("A", "I"):
+                                nm = rng.choice(pnames + cnames + ["zz_free"])
+                                v = rng.choice(value_pool(cls, nm, ctor))
+                                ops.append(f"{kind}:{nm}={tokv(v)}")
+                                if kind == "A":
+                                    setattr(t, nm, v)
+                                else:
+                                    t[nm] = v
+                            elif kind == "V":
+                                n = len(pnames) if rng.random() < 0.75 else rng.choice([0, 1, 2, 3, 4])
+                                vs = [rng.choice(value_pool(cls, pnames[i] if i < len(pnames) else "lower", ctor)) for i in range(n)]
+                                if rng.random() < 0.7:
+                                    vs = [v if v == v else 0.3 for v in vs]
+                                ops.append("V:" + C.flist(vs))
+                                t.params.values = vs
+                            elif kind == "R":
+                                ops.append("R")
+                                t.reset()
+                            else:
+                                P0 = {nm: v for nm, v in zip(pnames + cnames, before[0] + before[1])}
+                                ok_state = all(fin(v) for v in before[0]) and all(fin(v) for v in before[1])
+                                o_ = None
+                                xs_ = [0.5, 2.0, -0.25]
+                                if ok_state:
+                                    try:
+                                        o_ = G.Obj.wrap(G.Obj(T, cls, ctor, {}, False), t)
+                                        xs_ = [v for v in G.x_inputs(cls, o_.P(), rng, 14) if fin(v)][:5] or xs_
+                                    except Exception:  # noqa
+                                        o_ = None
+                                ops.append(f"{kind}:" + C.flist(xs_))
+                                r = t.jacobian(np.array(xs_)) if kind == "J" else t.forward(np.array(xs_))
+                                tame = all(abs(v) <= 1e12 for v in before[0] + before[1])
+                                vals = ([float(v) for v in np.asarray(r, dtype=np.float64).ravel()], xs_,
+                                        (o_.P() if (o_ is not None and tame) else None))   # None: values not compared here
+                                if o_ is not None:
+                                    # the same call once more through the main correspondence (condition-scaled tolerance
+                                    # from the error-tracking instance, at the parameters the object holds NOW)
+                                    compared(o_, "jac" if kind == "J" else "fwd", xs_, "store stream", inside=False)
+                        steps.append(("values" if vals is not None else "done", snapshot(t), vals))
+                    except ValueError as e:
+                        after = snapshot(t)
+                        same = all(a is b or (a is not None and b is not None and [C.f2h(v) for v in a] == [C.f2h(v) for v in b])
+                                   for a, b in zip(before, after))
+                        if not same:
+                            ctx.disagree(f"{cls}: an operation that raised ValueError changed the stored parameters / constants",
+                                         {"class": cls, "ctor": ctor, "op": ops[-1], "before": before, "after": after})
+                        steps.append(("rej:" + classify(e), after, None))
+                    except Exception as e:  # noqa
+                        # not a ValueError (e.g. a TypeError out of numpy on +-inf parameters): outside what the object model
+                        # describes - the history ends before this operation, which is only recorded
+                        ctx.count(("store-exc", cls, it, len(ops)), False, f"store/{cls}/raised-{type(e).__name__}-not-compared")
+                        ops.pop()
+                        break
+            hist_reqs.append(f"hist {cls} {ctok} {how} " + " ".join(ops))
+            hist_checks.append((cls, ctor, how, ops, steps))
+            ctx.count(("store", cls, it, how != "direct"), t is not None,
+                      f"store/{cls}/" + ("get_transform" if via else "constructor") + ("" if t is not None else "/rejected"))
+
+    # ---- dutils.cast itself, on the kinds of argument the model covers
+    from hydrodiy.data import dutils as DU
+    cast_reqs, cast_checks = [], []
+    for it in range(ctx.scale(40, 200)):
+        kind = rng.choice(["f64", "f64", "f32", "i64", "float"])
+        shape = rng.choice([[3], [2, 2], [1, 4], [2, 1, 2], [1]]) if kind != "float" else rng.choice([[], [], [1], [2]])
+        n = 1
+        for d in shape:
+            n *= d
+        ys = [rng.uniform(-5, 5) for _ in range(n)]
+        ydt = "f64"
+        if kind == "float":
+            x = 0.25
+        else:
+            x = np.zeros(shape, dtype={"f64": np.float64, "f32": np.float32, "i64": np.int64}[kind])
+        yarr = np.array(ys, dtype=np.float64).reshape(shape)      # shape [] : a 0-d array
+        if kind == "float" and shape == [] and rng.random() < 0.5:
+            yarr = np.float64(ys[0])                               # a numpy scalar, as arithmetic on scalars returns
+        try:
+            with warnings.catch_warnings():
+                warnings.simplefilter("ignore")
+                r = DU.cast(x, yarr)
+            if kind == "float":
+                got = ("ok", "float" if type(r) is float else type(r).__name__, [], [float(r)])
+            else:
+                got = ("ok", {"float64": "f64", "float32": "f32", "int64": "i64"}.get(r.dtype.name, r.dtype.name),
+                       list(r.shape), [float(v) for v in r.ravel()])
+        except TypeError:
+            got = ("err", "typeError", None, None)
+        cast_reqs.append(f"cast {kind} {ydt} {C.ilist(shape)} {C.flist(ys)}")
+        cast_checks.append((kind, shape, ys, got))
+        ctx.count(("cast", kind, tuple(shape), it), got[0] == "ok", f"glue/cast/{kind}/" + got[0])
 
     # ---------------- correspondence: jacobian
     replies = ctx.lean.ask(reqs)
@@ -1023,6 +1454,10 @@ def body(ctx):
             # the error KIND is compared when the ValueError's text is one the harness can classify; a reworded message
             # ("other:...") is still a ValueError: then only "the model rejects this input too" is compared
             unclassified = payload.startswith("other:")
+            if not case.get("inside", True) and payload.startswith("exc:"):
+                # outside the quantifier / excluded by a theorem hypothesis: an exception other than ValueError is recorded only
+                ctx.count((req, "exc"), False, f"{cls}/{op}/outside-quantifier-raises-" + payload.split(":")[1])
+                continue
             ctx.count((req,), False, f"{cls}/{op}/err:" + ("unclassified-ValueError" if unclassified else payload))
             if cls == "Softmax" and payload == "sumGe1" and rep.startswith("ok") and softmax_sum_edge(case["rows"]):
                 stats["guard_edge_not_compared"] += 1
@@ -1101,7 +1536,7 @@ def body(ctx):
             if not fin(e):
                 stats["unconstrained"] += 1
                 continue
-            if abs(a - m) <= 2 * e or C.ulp_diff(a, m) <= 4 or abs(a - m) <= 1e-12 * abs(m):
+            if abs(a - m) <= 2 * e or C.ulp_diff(a, m) <= 4 or abs(a - m) <= 1e-12 * abs(m) or abs(a - m) <= SUBNORMAL_FLOOR:
                 if e > 0 and abs(a - m) / e > stats["max_diff_over_bound"]:
                     stats["max_diff_over_bound"] = abs(a - m) / e
                 continue
@@ -1144,6 +1579,99 @@ def body(ctx):
         if not (abs(mdet - mj) <= 1e-7 * abs(mj)):
             ctx.disagree("Softmax: Laplace determinant of the model's matrix of partial derivatives differs from the "
                          "model's jacRow at Float by more than 1e-7 relative", {"row": row, "det": mdet, "jacRow": mj})
+
+    # ---------------- correspondence: store stream
+    def loose_same(cls, op, P, x, a, m):
+        """call values inside a history, answered by the model from ITS OWN state (Float, no error-tracking instance here):
+        NaN pattern, sign and order of magnitude; not judged next to a guard edge or outside the domain of the formula.
+        The same call is also queued for the main correspondence (condition-scaled tolerance)"""
+        if P is None or not fin(x) or near_guard(cls, P, x):
+            return True
+        if G.in_domain(cls, op, P, x) is False:
+            return True
+        if op == "jac" and cls in ("Log",) + BOXCOX + ("BoxCox2sym",) and P["nu"] == P["nu"]:
+            if not ((abs(x) if cls == "BoxCox2sym" else x) + P["nu"] > 0):
+                return True
+        if a != a or m != m:
+            return (a != a) == (m != m)
+        if a == m:
+            return True
+        if not fin(a) or not fin(m):
+            return abs(a) > 1e300 and abs(m) > 1e300 and (a > 0) == (m > 0)
+        if abs(a - m) <= 0.5 * max(abs(a), abs(m)) or abs(a - m) <= SUBNORMAL_FLOOR:
+            return True          # same sign and order of magnitude: the precise comparison of this call is the main stream's
+        if op == "fwd":
+            # forward has cancelling formulas ((s^lam - 1)/lam, (exp(t) - 1)/lam near 0): the a-priori evaluation error
+            try:
+                err = float(np.ravel(fwd_abs_err(np, cls, P, np.array([x]), np.array([a])))[0])
+            except Exception:  # noqa
+                return False
+            return fin(err) and abs(a - m) <= 4 * err
+        return False
+
+    hist_replies = ctx.lean.ask(hist_reqs)
+    nsteps_compared = 0
+    for req, (cls, ctor, how, ops, steps), rep in zip(hist_reqs, hist_checks, hist_replies):
+        case = {"class": cls, "ctor": ctor, "how": how, "ops": ops}
+        toks = rep.split()
+        if steps[0][0].startswith("rej:"):
+            kind = steps[0][0][4:]
+            ctx.count((req, "ctor"), False, f"store/{cls}/constructor-rejects/" + ("unclassified" if kind.startswith("other:") else kind))
+            if toks[0] != "err" or (not kind.startswith("other:") and toks[1:] != [kind]):
+                ctx.disagree(f"{cls}: the constructor / get_transform raised ValueError ({kind}), the model replied {rep[:60]}", case)
+            continue
+        if toks[0] != "ok":
+            ctx.disagree(f"{cls}: the constructor / get_transform returned an object, the model replied {rep[:60]}", case)
+            continue
+        msteps = [tk for tk in toks[1:] if not tk.startswith("final=")]
+        if len(msteps) != len(steps):
+            ctx.disagree(f"{cls}: history of {len(steps)} steps, the model replied {len(msteps)} steps", {**case, "model": rep[:200]})
+            continue
+        for k, ((st, snap, vals), mtok) in enumerate(zip(steps, msteps)):
+            mst, mp, mc, mbc, mys = mtok.split(";")
+            opk = ops[k - 1] if k > 0 else "construction"
+            nsteps_compared += 1
+            ctx.count((req, k), True, f"store/{cls}/" + (opk[0] if k > 0 else "new") + "/" + (st if not st.startswith("rej:other:") else "rej:unclassified"))
+            where = {**case, "step": k, "op": opk}
+            if st.startswith("rej:other:"):
+                okst = mst.startswith("rej:")
+            else:
+                okst = st == mst
+            if not okst:
+                ctx.disagree(f"{cls}: outcome of an operation differs (implementation {st}, model {mst})", where)
+                break
+            ip, ic, ibc = snap
+            if [C.f2h(v) for v in ip] != [t_ for t_ in mp.strip("[]").split(",") if t_] or \
+                    [C.f2h(v) for v in ic] != [t_ for t_ in mc.strip("[]").split(",") if t_]:
+                ctx.disagree(f"{cls}: stored parameters / constants after an operation differ from the model's",
+                             {**where, "impl_params": ip, "impl_constants": ic, "model": mtok})
+                break
+            if (ibc is None) != (mbc == "-") or (ibc is not None and [C.f2h(v) for v in ibc] != [t_ for t_ in mbc.strip("[]").split(",") if t_]):
+                ctx.disagree(f"{cls}: parameters of the inner BoxCox2 after an operation differ from the model's",
+                             {**where, "impl_inner": ibc, "model": mtok})
+                break
+            if vals is not None:
+                iv, xs_, P_ = vals
+                mv = C.parse_flist(mys)
+                opn = "jac" if opk.startswith("J") else "fwd"
+                if len(iv) != len(mv) or not all(loose_same(cls, opn, P_, x, a, m) for x, a, m in zip(xs_, iv, mv)):
+                    ctx.disagree(f"{cls}: values returned by a call inside a history differ from the model's (NaN pattern / sign / order of magnitude)",
+                                 {**where, "inputs": xs_, "impl": iv, "model": mv, "params": P_})
+                    break
+    cast_replies = ctx.lean.ask(cast_reqs)
+    for (kind, shape, ys, got), rep in zip(cast_checks, cast_replies):
+        toks = rep.split()
+        if got[0] == "err":
+            same = toks[:2] == ["err", "typeError"]
+        elif kind == "float":
+            same = toks[:2] == ["ok", "float"] and got[1] == "float" and [C.f2h(v) for v in C.parse_flist(toks[2])] == [C.f2h(v) for v in got[3]]
+        else:
+            same = len(toks) == 5 and toks[:3] == ["ok", "arr", got[1]] and C.parse_list(toks[3]) == [str(d) for d in got[2]] and \
+                [C.f2h(v) for v in C.parse_flist(toks[4])] == [C.f2h(v) for v in got[3]]
+        if not same:
+            ctx.disagree("dutils.cast: implementation and model differ", {"kind": kind, "shape": shape, "ys": ys,
+                                                                         "impl": list(got), "model": rep})
+    ctx.extra["store_stream_steps_compared"] = nsteps_compared
 
     ctx.extra["rule"] = __doc__.split("Cases:")[1].strip()
     ctx.extra["oracle"] = __doc__.split("Oracle")[1].split("Cases:")[0].strip()
